@@ -278,6 +278,12 @@ class ClientMachine(RuleBasedStateMachine):
         # whatever this call cached belongs to X, not to the client's own server: not the model's business
         now = set(p.name for p in d.iterdir()) if d.exists() else set()
         self.foreign_cache |= now - had
+        # ... unless X *is* the own server of an institution the model follows and this client reports the same ORG/FID
+        # (the hosting provider's two customers): the cache entry (ORG, FID, X) is that institution's, and it has just been
+        # rewritten with what X answered - by a path the model does not follow, so it stops predicting from it
+        for J in INSTITUTIONS:
+            if J["P"] == X and (J["org"], J["fid"]) == (I["org"], I["fid"]) and len(new) == 1 and raised is None:
+                self.cache[(J["org"], J["fid"], X)] = True
 
     def check_hop(self, step, what, url, rec, cl, ci, dry_bytes, api, P):
         pre = f"{what}-hop"
